@@ -40,6 +40,7 @@ type shardResp struct {
 	TimedOut              bool
 	States                int
 	Kids                  [][]int
+	Recycle               bool // the worker asks to be replaced (memory hygiene)
 }
 
 // WorkerArgs is how a child process is started for a part: argv after the binary name.
@@ -153,6 +154,7 @@ func subtree(name string, cfg Config, param any, body func(*Ctx), req shardReq, 
 func ServeWorker(name string, cfg Config, param any, body func(*Ctx)) {
 	in := bufio.NewReaderSize(os.Stdin, 1<<20)
 	out := bufio.NewWriter(os.Stdout)
+	var served int64
 	if !cfg.NoDetCheck && os.Getenv("MC_DETCHECK") == "1" {
 		e := &explorer{cfg: cfg, body: body, param: param, name: name, outcomes: newHashSet(), nontr: newHashSet()}
 		a, b := e.runOne(nil, false), e.runOne(nil, false)
@@ -182,6 +184,10 @@ func ServeWorker(name string, cfg Config, param any, body func(*Ctx)) {
 			}
 		}
 		resp := subtree(name, cfg, param, body, req, trace)
+		served += resp.Execs
+		if cfg.RecycleAfter > 0 && served >= cfg.RecycleAfter {
+			resp.Recycle = true
+		}
 		b, _ := json.Marshal(resp)
 		out.WriteString("R ")
 		out.Write(b)
@@ -448,6 +454,10 @@ func ExploreSharded(name string, cfg Config, spec WorkerSpec, param any, body fu
 							fmt.Fprintf(os.Stderr, "[mc] %s: worker stopped by watchdog on prefix %v\n", name, it.prefix)
 							break
 						}
+					}
+					if resp != nil && resp.Recycle && w != nil {
+						w.kill()
+						w = nil
 					}
 					mu.Lock()
 					if resp != nil {
